@@ -514,9 +514,9 @@ func rulesMapOrderFn(c *Ctx, r *Report, rel, name string) {
 		})
 		if sortCall != nil {
 			sorted = true
-			// every return must be dominated by the sort
+			// every return reachable from the loop must be dominated by the sort
 			instrs(f, func(in2 ssa.Instruction) {
-				if rt, ok := in2.(*ssa.Return); ok && !instrDominates(sortCall, rt) {
+				if rt, ok := in2.(*ssa.Return); ok && (rt.Block() == rg.Block() || blockReaches(rg.Block(), rt.Block())) && !instrDominates(sortCall, rt) {
 					escapedUnsorted = true
 				}
 			})
